@@ -403,6 +403,17 @@ class Escape:
         record = ctx["record"]
         loc = f.loc(call)
         out = {}
+        # "...{0[1]}...".format(x) / "{0.attr}": the format machinery indexes / dereferences the argument and raises when it cannot
+        if isinstance(call.func, ast.Attribute) and call.func.attr == "format" and isinstance(call.func.value, ast.Constant) and isinstance(call.func.value.value, str):
+            import string
+            try:
+                fields = [fn_ for _, fn_, _, _ in string.Formatter().parse(call.func.value.value) if fn_]
+            except ValueError:
+                fields = []
+            if any("[" in x or "." in x for x in fields):
+                for c in ("builtins.IndexError", "builtins.KeyError", "builtins.TypeError", "builtins.AttributeError"):
+                    out.setdefault((c, "fmt@%s:%s" % (f.qualname, call.func.value.value[:30])),
+                                   ("%s %s: a format field indexes or dereferences its argument" % (loc, f.name),))
         targets = self.cg.resolve_call(call, f)
         for t in targets:
             if t.kind == "fn":
